@@ -1,4 +1,4 @@
-CONSTANT MaxFiles = 5
+CONSTANT MaxFiles = 4
 INIT Init
 NEXT Next
 INVARIANT Emit
